@@ -1,6 +1,82 @@
 # claim(property, technique, level text, level note, DESIGN.md section)
+NOTE = "Trusted: the reference model and decoders in harness/src (model.rs, app*.rs, sig.rs), the frame builders, the cfg-gated driver hook (H1-H3). Bounds: the stated field domains / deviation bound / search depth; wider fields by edge sets; nothing is sampled."
+claim("C01",
+      "bounded-exhaustive deviation-neighbourhood enumeration (0 and 1 deviations complete, part of 2) + explicit-state search over parser control states, on the real reply(), both build profiles, 72 configurations",
+      "Every frame of the base corpus, every truncation, every listed value of every length/selector field, every byte position x 256 values (bounded region in the quick tier), tails, short strings after each signature, and every corpus frame in every reachable parser control state is executed on the real reply() under the configuration lattice on the overflow-checked and the release build; the oracle is 'no panic, process alive, answer within the watchdog'.",
+      NOTE, "DESIGN.md section 4 C01")
+claim("C02",
+      "bounded-exhaustive sweep: authorised MAC set + all 1-bit flips, all 65536 EtherTypes, all 256 IP protocols, deny/self sets + all 1-bit flips, against the reference predicate",
+      "The acceptance tests are memberships in finite sets, so their boundary is the 1-bit neighbourhood, which is enumerated completely together with all EtherType / protocol values, for 4 (thorough 8) configurations; every reply is also checked to be sourced from (and to advertise) listed addresses.",
+      NOTE, "DESIGN.md section 4 C02")
+claim("C03",
+      "bounded-exhaustive sweep: address alphabets and all 65536 values of each port for every reply-eliciting frame kind; mirror-map oracle on every reply",
+      "All 65536 source ports x 4 destination ports and conversely for TCP SYN, TCP data behind a valid cookie, UDP STUN (incl. the dport+1 exception at 65535), UDP HTTP; 8-value alphabets for MACs and IP addresses; the mirror invariants are additionally evaluated on every reply of every other check.",
+      NOTE, "DESIGN.md section 4 C03")
+claim("C04",
+      "bounded-exhaustive sweep designed so that each reply checksum takes all 65536 values; independent re-parse and re-checksum of every reply",
+      "One echoed 16-bit request field is swept over all values per (L4 protocol x IP version x reply kind), echo payloads of every length 0..1472, DNS replies up to the largest a 4096-byte frame can elicit; the well-formedness invariants are also evaluated on every reply of every other check.",
+      NOTE, "DESIGN.md section 4 C04")
 claim("C05",
-      "bounded-exhaustive sweep (full Cartesian products: all 65536 ARP ops, all 256x256 ICMP type/code pairs, all echo ids/seqs/lengths) on the real reply() against a reference model",
-      "Every frame of the stated finite products is executed on the real reply() (release build) and compared field by field with the reference model's expected ARP reply / NA / echo reply or silence, under two configurations (address lists absent / present).",
-      "Trusted: the reference model in harness/src/model.rs, the frame builders, the driver hook. Bounds: the listed field domains; wider fields by edge sets.",
-      "DESIGN.md section 4 C05")
+      "bounded-exhaustive sweep (all 65536 ARP ops, all 256x256 ICMP type/code pairs, all echo ids/seqs/lengths, ND option layouts) against a field-by-field reference",
+      "Every frame of the stated finite products is executed on the real reply() and compared field by field with the expected ARP reply / NA / echo reply or silence, under two configurations.",
+      NOTE, "DESIGN.md section 4 C05")
+claim("C06",
+      "bounded-exhaustive sweep over all 512 flag values x reserved bits x payloads x edge sequence numbers; cookie function analysed over >= 2^18 tuples (determinism, sensitivity, collision count)",
+      "The SYN rule is decided for every flag value; the cookie clause is decided as functional determinism plus sensitivity on learned cookies (collisions counted against the 2^-32 expectation), under 3 keys.",
+      NOTE, "DESIGN.md section 4 C06")
+claim("C07",
+      "explicit-state BFS over the real connection table (hook H2 digest) against a reference connection model",
+      "Breadth-first search over histories of a ~35-event-per-flow alphabet on 2-3 flows, de-duplicated on (canonical real table, reference state); every transition is judged: answered-or-not, flags, seq/ack arithmetic (incl. wrap and ack=0), application verdict, table size.",
+      NOTE, "DESIGN.md section 4 C07")
+claim("C08",
+      "explicit-state BFS with a differential oracle on every transition (reply under the full history == reply under the own-flow restriction on a fresh table) + no-dedup interleaving enumeration + cookie-collision stage",
+      "No hand-written expectation: the same frame is replayed after only its own flow's accepted data segments and the replies must be identical (wall clock masked); all interleavings of two 3-segment requests with noise are enumerated without de-duplication so that state invisible to the digest cannot hide.",
+      NOTE + " Known finding D13 (equal cookies alias one control block).", "DESIGN.md section 4 C08")
+claim("C09",
+      "explicit-state BFS invariant |real table| == |validated flows of the reference| on every transition + volume sweeps with long-lived tables",
+      "The table-size probe (hook H2) is compared with the reference set of validated flows after every frame of the search; all source ports x 12 kinds of unvalidated frames must leave a long-lived table empty; 200 valid segments on one flow grow it exactly once.",
+      NOTE + " Known finding D13.", "DESIGN.md section 4 C09")
+claim("C10",
+      "explicit-state product automaton: real compiled matcher (stepped through hook H3) x reference NFA of the 19 signatures over 256 bytes + END, to a fixpoint; witnesses replayed through the real UDP/TCP paths",
+      "Both sides are finite automata, so the fixpoint covers every byte string of every length; every transition is classified and every first divergence is an event with a row-numbering-independent key; segmentation of the matcher and the observable level (UDP, TCP whole, TCP cut at every offset inside the signature) are checked on witnesses.",
+      NOTE + " Known finding D12: 103 listed first-divergence events (wildcard shadowing).", "DESIGN.md section 4 C10")
+claim("C11",
+      "differential exhaustive enumeration of segmentations (every 1-cut, every 2-cut, finest, zero-length insertions) + BFS over parser control states with merge-equivalence in every state",
+      "The unsegmented run of the same stream is the reference; the parser-state BFS with one-byte segments reaches a fixpoint of the control states (529 on the current tree) and in each of them 'one segment xy' is compared with 'x then y' (state dump and replies).",
+      NOTE, "DESIGN.md section 4 C11")
+claim("C12",
+      "bounded-exhaustive sweep over reply-typed messages (all 32768 DNS flag words with QR=1, all 65536 STUN types, all SMB2 commands with the response flag, ...) + explicit reflection chains iterated to silence",
+      "Every reply the responder produces for the base corpus is re-addressed to it and the chain is iterated to silence; protocol-marked replies are built for every value of the marking field; a reply is allowed only where the reference grammars say the bytes are a valid request.",
+      NOTE, "DESIGN.md section 4 C12")
+claim("C13",
+      "bounded-exhaustive grammar product + complete single-fault neighbourhood (every deletion / substitution / insertion / prefix) over UDP and TCP, against an independent recogniser",
+      "The request grammar product and all single-byte faults of a core set are sent over UDP and fresh validated TCP flows; answered-or-not is compared with the recogniser of the statement's grammar and every 401 is validated (status, WWW-Authenticate, Content-Length == body bytes).",
+      NOTE, "DESIGN.md section 4 C13")
+claim("C14",
+      "bounded-exhaustive sweep (all ids, all flag words, all qtypes, all qclasses, label layouts x question counts, every prefix) against an independent DNS decoder",
+      "Every response is fully decoded (id, opcode, RD, QR, question echo, counts, one IN/A answer per question with RDATA = destination address, no trailing bytes); non-IN/A, QR=1 and truncated messages must be silent.",
+      NOTE, "DESIGN.md section 4 C14")
+claim("C15",
+      "bounded-exhaustive sweep (all message types, transaction-id bytes, attribute lists, all ports, change-request flags) against an independent STUN decoder",
+      "Every well-formed binding request must be answered with a decoded-correct success response reflecting the observed address; the change-port exception is checked for all destination ports.",
+      NOTE + " Known finding D12 seen from this property (requests the matcher misses).", "DESIGN.md section 4 C15")
+claim("C16",
+      "bounded-exhaustive sweep (256 programs x 8 versions x 256 procedures, XID bytes, credential / verifier lengths, all destination ports) against an independent XDR reader",
+      "Every reply is decoded and the precedence PROG_MISMATCH > NULL > GETPORT/GETADDR/DUMP > PROC_UNAVAIL > PROG_UNAVAIL and the advertised endpoint are checked, over UDP and TCP, IPv4 and IPv6.",
+      NOTE + " Known finding D12 seen from this property.", "DESIGN.md section 4 C16")
+claim("C17",
+      "bounded-exhaustive sweep (all 65536 values of each SMB1 id, all flags and commands, ALL dialect sequences of length 1..4, blob lengths, SMB2 id bytes, all 65536 commands) against an independent decoder",
+      "Every response is decoded: NetBIOS length, reply flag, echoed command and correlation fields, length/offset consistency with the blob present, selected dialect offered; reply-flagged or other-command messages must be silent.",
+      NOTE, "DESIGN.md section 4 C17")
+claim("C18",
+      "exhaustive enumeration of all strings up to length 5 (thorough 6) over a 9-symbol alphabet after each SSH signature + complete single-fault neighbourhood of 11 banners; Gh0st tails; independent recogniser and zlib inflate",
+      "Answered-or-not is compared with the recogniser of the identification-string grammar, the reply must be exactly 'SSH-2.0-1 CR LF'; every Gh0st reply is decoded (declared total length, body inflates to the declared length).",
+      NOTE, "DESIGN.md section 4 C18")
+claim("C19",
+      "differential bounded-exhaustive sweep: all 65536 destination ports, all 65536 source ports, two 256x256 byte grids, both IP versions, vs the reference run, endpoint-carrying fields masked",
+      "No hand-written expectation: the canonical reply (endpoint fields and wall clock masked) must equal that of the reference run (40000 -> 80, IPv4) for every payload of the corpus, over UDP and fresh validated TCP flows.",
+      NOTE, "DESIGN.md section 4 C19")
+claim("C20",
+      "bounded-exhaustive enumeration of every control-flow path of the L2-L4 layers (corpus + every truncation + every header-field value + selectors) with the real loggers attached; per-frame event trace compared with the reference trace",
+      "The real ConsoleLogger / LogfmtLogger lines of each frame are parsed (arity / key=value syntax) and the multiset of events is compared with the reference: one recv and one terminal per layer reached, nested, terminal = send iff a reply was emitted, printed addresses and ports = the frame's.",
+      NOTE, "DESIGN.md section 4 C20")
